@@ -1987,7 +1987,12 @@ class FileBuilder:
             dirs_to_remove.discard(os.path.normcase(dir_))
 
         for filename in self._new_cache.created_files():
-            if not self._old_cache.created_file(filename):
+            # Remove the files we built. This includes files that the previous
+            # build created as well: if such a file still existed, then we
+            # backed it up, and restore_all() puts it back. If it didn't (e.g.
+            # because someone deleted it), then it shouldn't exist afterwards.
+            if (not self._old_cache.created_file(filename) or
+                    self._new_cache.built_file(filename)):
                 FileBuilder._try_to_remove_file(filename)
         FileBuilder._remove_empty_dirs(list(dirs_to_remove))
 
